@@ -485,6 +485,26 @@ func runC14(c *runCfg) error {
 			}
 			emitGroup("corrupt", bad, nil, "done")
 			emitGroup("aborted", stream, nil, "fail")
+			// a wrong field count in a row that is NOT the first one (one more, one fewer, none, 65534): an error
+			// where it stands, whatever came before — never a short row, never a panic
+			if len(rows) >= 2 {
+				for k := 1; k < len(rows); k++ {
+					pfx, _ := encodeRows(oids, rows[:k], header, false)
+					off := len(pfx)
+					for vi, cnt := range []int{len(oids) + 1, len(oids) - 1, 0, 65534} {
+						if cnt < 0 || cnt == len(oids) || off+1 >= len(stream) {
+							continue
+						}
+						later := append([]byte{}, stream...)
+						later[off], later[off+1] = byte(cnt>>8), byte(cnt)
+						for si, cuts := range [][]int{nil, {off}, {off + 1}, {off + 2}} {
+							emitC14(c, &c14case{id: fmt.Sprintf("%d.v%d", id, si), class: "corrupt_later", limit: L, oids: oids,
+								chunks: fitChunks(splitAt(later, cuts), L), ending: "done", must: "err", noise: (si+vi)%3 == 1})
+						}
+						id++
+					}
+				}
+			}
 			// the stream cut after EVERY byte (one message, and one byte per message), then CopyDone:
 			// only a cut at a row boundary / behind the trailer is a complete stream
 			if len(stream) <= 120 || c.tier == "thorough" {
